@@ -27,6 +27,10 @@
 use std::pin::Pin;
 use std::task::{Context, Poll, Waker};
 use std::time::Duration;
+#[cfg(not(jsonrpsee_verif))]
+use std::time::Instant;
+#[cfg(jsonrpsee_verif)]
+use tokio::time::Instant;
 
 use futures_util::stream::FuturesUnordered;
 use futures_util::{Stream, StreamExt, Future};
@@ -69,13 +73,13 @@ impl<S: Stream> Stream for IntervalStream<S> {
 #[allow(unused)]
 pub(crate) enum InactivityCheck {
 	Disabled,
-	Enabled { inactive_dur: Duration, last_active: std::time::Instant, count: usize, max_count: usize }
+	Enabled { inactive_dur: Duration, last_active: Instant, count: usize, max_count: usize }
 }
 
 impl InactivityCheck {
 	#[cfg(feature = "async-client")]
 	pub(crate) fn new(_inactive_dur: Duration, _max_count: usize) -> Self {
-		Self::Enabled { inactive_dur: _inactive_dur, last_active: std::time::Instant::now(), count: 0, max_count: _max_count }
+		Self::Enabled { inactive_dur: _inactive_dur, last_active: Instant::now(), count: 0, max_count: _max_count }
 	}
 
 	pub(crate) fn is_inactive(&mut self) -> bool {
@@ -93,7 +97,7 @@ impl InactivityCheck {
 
 	pub(crate) fn mark_as_active(&mut self) {
 		if let Self::Enabled { last_active, .. } = self {
-			*last_active = std::time::Instant::now();
+			*last_active = Instant::now();
 		}
 	}
 }
